@@ -945,8 +945,10 @@ class DataSet:
         scans = self.scan_indices[:]
         # This is the active selection onto which scan selection will be added
         preselection = dict(self._selection.items())
-        # This will ensure that the original selection is properly restored
-        preselection['reset'] = 'T'
+        # The saved criteria are re-applied on top of the saved time selection,
+        # which also reflects criteria stacked on an already used keyword with
+        # reset='' (these are no longer part of the criteria themselves)
+        preselection['reset'] = ''
         old_timekeep = self._time_keep.copy()
         state_data = self.sensor.get('Observation/scan_state')
         for scan in scans:
@@ -984,8 +986,10 @@ class DataSet:
         compscans = self.compscan_indices[:]
         # This is the active selection onto which compscan selection will be added
         preselection = dict(list(self._selection.items()))
-        # This will ensure that the original selection is properly restored
-        preselection['reset'] = 'T'
+        # The saved criteria are re-applied on top of the saved time selection,
+        # which also reflects criteria stacked on an already used keyword with
+        # reset='' (these are no longer part of the criteria themselves)
+        preselection['reset'] = ''
         old_timekeep = self._time_keep.copy()
         for compscan in compscans:
             # Add scan selection on top of existing selection
